@@ -183,6 +183,20 @@ def judge(text, lib, acc, case):
             e = b.ignore_error_block if isinstance(b, DuplicateFieldKeyBlock) or isinstance(b.ignore_error_block, Entry) else None
         if isinstance(e, Entry) and e.raw == raw:
             fl = field_lines(e)
+            if fl is None and e.fields:
+                # an entry that went through middleware (values stripped or resolved, keys lower-cased): its fields are
+                # paired by position with those of the same raw text split on its own, which can be located
+                try:
+                    alone = Splitter(raw).split().blocks
+                    ref = alone[0] if len(alone) == 1 else None
+                    if isinstance(ref, DuplicateFieldKeyBlock):
+                        ref = ref.ignore_error_block
+                    rl = field_lines(ref) if isinstance(ref, Entry) else None
+                    if rl is not None and [f.key.lower() for f, _ in rl] == [f.key.lower() for f in e.fields]:
+                        fl = [(f, None if exp is None else exp - ref.start_line + e.start_line) for f, (_, exp) in zip(e.fields, rl)]
+                        acc.count("field_lines_paired_by_position")
+                except Exception:
+                    fl = None
             if fl is None:
                 acc.count("field_locate_failed")
             else:
